@@ -750,6 +750,10 @@ func bodyC25(c c25Case, x *vkit.Ctx) {
 		bodyC25StopRace(c.StopRace, x)
 		return
 	}
+	// two sessions in three: the agent's goroutines linger after releasing one
+	// of the agent package's mutexes (lockyield_test.go)
+	lockYield((len(c.Ops) + c.SlowWriteUs) % 3)
+	defer lockYield(0)
 	ro := rigOpts{Loopback: true}
 	if c.SlowWriteUs > 0 {
 		d := time.Duration(min(c.SlowWriteUs, 2000)) * time.Microsecond
